@@ -146,11 +146,17 @@ func (w *watches) updateDirFlags(path string, flags uint32) bool {
 	return true
 }
 
-func (w *watches) remove(fd int, path string) bool {
+// remove forgets the watch for path; ok reports if it was still there with this
+// descriptor (it may have been removed by someone else in the meantime).
+func (w *watches) remove(fd int, path string) (isDir, ok bool) {
 	w.mu.Lock()
 	defer w.mu.Unlock()
 
-	isDir := w.wd[fd].isDir
+	if cur, has := w.path[path]; !has || cur != fd {
+		return false, false
+	}
+
+	isDir = w.wd[fd].isDir
 	delete(w.path, path)
 	delete(w.byUser, path)
 
@@ -163,7 +169,7 @@ func (w *watches) remove(fd int, path string) bool {
 
 	delete(w.wd, fd)
 	delete(w.seen, path)
-	return isDir
+	return isDir, true
 }
 
 func (w *watches) markSeen(path string, exists bool) {
@@ -296,11 +302,19 @@ func (w *kqueue) remove(name string, unwatchFiles bool) error {
 		return fmt.Errorf("%w: %s", ErrNonExistentWatch, name)
 	}
 
-	// Always close the descriptor and forget the watch, also if EV_DELETE
-	// fails (e.g. because the kqueue itself is already closed): closing the
-	// descriptor removes the kevent too, and not doing it leaks it.
+	// Forget the watch first: Remove() and readEvents() can get here for the
+	// same path at the same time, and only the one that actually took it out
+	// of the tables may touch the descriptor. The other one would delete the
+	// kevent of, and close, whatever got that descriptor number next.
+	isDir, ok := w.watches.remove(info.wd, name)
+	if !ok {
+		return fmt.Errorf("%w: %s", ErrNonExistentWatch, name)
+	}
+
+	// Always close the descriptor, also if EV_DELETE fails (e.g. because the
+	// kqueue itself is already closed): closing the descriptor removes the
+	// kevent too, and not doing it leaks it.
 	err := w.register([]int{info.wd}, unix.EV_DELETE, 0)
-	isDir := w.watches.remove(info.wd, name)
 	unix.Close(info.wd)
 	if err != nil {
 		return err
